@@ -19,8 +19,7 @@ RULE = ("(a) ALL 16 subsets of the four base-class callbacks (classes built dyna
         "(c) the four painters in every documented mode (1-D painters on N=1, section/N-D painters on N=2,3), alone and combined with the console listener, with and "
         "without refinement: same non-interference comparison (painter probes of the objective are separated from trials by a forwarding proxy), and the console "
         "listener's final block is parsed from captured stdout and compared with the Solution fields. Non-trivial: every case; distinct = (kind, N, subset/mode, batching, seed index).")
-ASSUMPTIONS = ["StaticPaintListener(mode='interpolation') on N>=2 is excluded (a 1-D mode on a section plot; see DESIGN.md C13)",
-               "DoGlobalIteration(0) is not issued with shipped listeners attached (the statement speaks of the new trials of a call)",
+ASSUMPTIONS = ["DoGlobalIteration(0) is not issued with shipped listeners attached (the statement speaks of the new trials of a call)",
                "matplotlib runs with the Agg backend; figures are closed after each run"]
 CHUNK = 2
 CB = ["BeforeMethodStart", "OnEndIteration", "OnMethodStop", "OnRefrash"]
@@ -30,8 +29,25 @@ BATCHINGS = [[["solve"]],
              [["iter", 5], ["iter", 2], ["solve"], ["solve"]]]
 
 
-def base_scn(rng, N, iters, refine=False):
+def hostile_bounds(rng, N):
+    """bounds for which a step-accumulating grid of 150 points overshoots (regression input for the arange defect, D9)"""
+    lo, hi = [], []
+    for i in range(N):
+        for tries in range(4000):
+            a = float(rng.uniform(-100, 100))
+            b = a + float(10 ** rng.uniform(-1, 2))
+            if len(np.arange(a, b, (b - a) / 150)) != 150:
+                break
+        lo.append(a)
+        hi.append(b)
+    return lo, hi
+
+
+def base_scn(rng, N, iters, refine=False, hostile=False):
     lo, hi, kind = scenario.gen_box(rng, N, "float")
+    if hostile:
+        lo, hi = hostile_bounds(rng, N)
+        kind = "hostile-grid"
     obj = scenario.gen_objective(rng, N, ["cones", "sines", "wells"])
     m = 10 if N == 1 else int(rng.integers(4, 9))
     return {"N": N, "lower": lo, "upper": hi, "box": kind, "obj": obj, "r": float(rng.choice([2.0, 3.0, 4.0])),
@@ -43,6 +59,7 @@ PAINTERS_1D = [("static", {"mode": "objective function"}), ("static", {"mode": "
                ("anim", {"toPaintObjFunc": True}), ("anim", {"toPaintObjFunc": False, "isPointsAtBottom": True})]
 PAINTERS_ND = [("static", {"mode": "objective function", "indx": 0}), ("static", {"mode": "objective function", "indx": 1, "isPointsAtBottom": True}),
                ("static", {"mode": "only points", "indx": 1}), ("static", {"mode": "approximation", "indx": 0}),
+               ("static", {"mode": "interpolation", "indx": 0}), ("static", {"mode": "interpolation", "indx": 1, "isPointsAtBottom": True}),
                ("staticnd", {"mode": "lines layers", "calc": "objective function"}), ("staticnd", {"mode": "lines layers", "calc": "interpolation"}),
                ("staticnd", {"mode": "surface", "calc": "approximation"}), ("staticnd", {"mode": "surface", "calc": "interpolation"}),
                ("animnd", {"toPaintObjFunc": True}), ("animnd", {"toPaintObjFunc": False})]
@@ -78,7 +95,15 @@ def cases(tier, seed):
                     if tier == "quick" and heavy and (combo or N == 3):
                         continue
                     out.append({"kind": "painter", "N": N, "painter": pk, "kw": kw, "console": combo, "b": (pi + rep) % 2, "seed": seed, "idx": idx,
-                                "refine": (pi + rep + N) % 3 == 0})
+                                "refine": (pi + rep + N) % 3 == 0, "hostile": (not combo) and not heavy})
+                    idx += 1
+    # interpolation painters on runs whose trials coincide in the plotted coordinates (eps at the grid resolution)
+    for rep in range(reps):
+        for N in (2, 3):
+            for pk, kw in PAINTERS_ND:
+                if kw.get("mode") == "interpolation" or kw.get("calc") == "interpolation":
+                    out.append({"kind": "painter", "N": N, "painter": pk, "kw": kw, "console": False, "b": 0, "seed": seed, "idx": idx,
+                                "refine": False, "coincident": True})
                     idx += 1
     return out
 
@@ -188,7 +213,17 @@ def run_case(c):
     rng = scenario.rng_for(c["seed"], "C13", c["idx"])
     N = c["N"]
     iters = int(rng.integers(12, 30)) if c["kind"] != "painter" else int(rng.integers(10, 22))
-    scn = base_scn(rng, N, iters, refine=c["refine"])
+    scn = base_scn(rng, N, iters, refine=c["refine"], hostile=bool(c.get("hostile")))
+    if c.get("kw", {}).get("mode") == "interpolation" and N > 1:
+        # a cubic interpolant needs at least 4 distinct abscissae: keep the section grid fine enough
+        scn["m"] = max(scn["m"], 7)
+        scn["eps"] = max(2.0 ** -scn["m"], 0.01)
+        scn["iters"] = max(scn["iters"], 18)
+    if c.get("coincident"):
+        scn["m"] = 4
+        scn["eps"] = 2.0 ** -4
+        scn["iters"] = 150
+        scn["r"] = 2.5
     scn["pattern"] = BATCHINGS[c["b"]]
     viol = []
     obs = {"runs": 1}
@@ -327,6 +362,11 @@ def run_case(c):
         if c["kind"] == "console" or c.get("console"):
             check_console(t, viol, obs)
             obs["console_runs"] = 1
+        if c.get("hostile"):
+            obs["hostile_grid_boxes"] = 1
+        if c.get("coincident"):
+            pts = [tuple(e["y"][:2]) for e in t.log if e["ph"] == "g"]
+            obs["runs_with_coincident_projected_trials"] = int(len(set(pts)) < len(pts))
         if c["kind"] == "painter":
             obs["painter_runs"] = 1
             files = os.listdir(outdir)
@@ -343,9 +383,9 @@ def run_case(c):
 
 def finalize(obs, tier, stats):
     for k in ("before_checked", "iter_callbacks_checked", "stop_callbacks_checked", "console_reports_checked", "painter_runs", "painter_probe_calls",
-              "figures_written", "refine_runs", "multi_listener_runs"):
+              "figures_written", "refine_runs", "multi_listener_runs", "hostile_grid_boxes", "runs_with_coincident_projected_trials"):
         if not obs.get(k):
             return "%s never observed" % k, {}
-    if len(obs.get("painter_kinds", [])) < 15:
+    if len(obs.get("painter_kinds", [])) < 19:
         return "painter matrix incomplete: %d kinds" % len(obs.get("painter_kinds", [])), {}
     return None, {}
